@@ -43,6 +43,10 @@ nontrivial = set()
 samples = []
 
 
+def bits(a):
+    return np.ascontiguousarray(a).reshape(-1).view(np.uint8)
+
+
 def h(a):
     return hashlib.sha1(np.ascontiguousarray(a).view(np.uint8)).hexdigest()
 
@@ -171,10 +175,14 @@ def check_fmt(n, m, p, bs, dtype):
     if rng.random() < 0.3:
         t2 = np.asfortranarray(t2)
     h1, h2 = h(t1), h(t2)
-    # unchunked kernel = reference
-    ref_t = np.full((n, p), np.inf, dtype=dtype)
-    ref_i = np.full((n, p), -1, dtype=arim.settings.INT)
-    arim.ray._find_minimum_times(np.ascontiguousarray(t1), np.asfortranarray(t2), ref_t, ref_i)
+    # reference = the same public function with one tile and one thread, cross-checked with
+    # a numpy brute force (min over k of time_1[i,k] + time_2[k,j]; first minimiser)
+    ref_t, ref_i = arim.ray.find_minimum_times(t1, t2, block_size=n * m * p * 4 + 64, numthreads=1)
+    sums = np.asarray(t1)[:, :, None] + np.asarray(t2)[None, :, :]
+    if not (np.array_equal(ref_t, sums.min(axis=1)) and
+            np.array_equal(np.take_along_axis(sums, ref_i[:, None, :].astype(np.int64), axis=1)[:, 0, :], ref_t)):
+        chk.violation("fmt:definition", "find_minimum_times (one tile, one thread) is not min_k time_1[i,k]+time_2[k,j]",
+                      {"n": n, "m": m, "p": p, "time_1": t1, "time_2": t2, "times": ref_t, "indices": ref_i})
     repl = {"fn": "find_minimum_times", "n": n, "m": m, "p": p, "block_size": bs, "dtype": str(dtype),
             "time_1": t1, "time_2": t2}
 
@@ -186,16 +194,17 @@ def check_fmt(n, m, p, bs, dtype):
     rec = RecordingExecutor.last
     tl = []
     for fn, args in rec.tasks:
-        r = region(args[2], out_t)
-        r2 = region(args[3], out_i)
+        arrs = [a for a in args if isinstance(a, np.ndarray)]
+        w_t = [a for a in arrs if np.shares_memory(a, out_t)]
+        w_i = [a for a in arrs if np.shares_memory(a, out_i)]
+        if len(w_t) != 1 or len(w_i) != 1:
+            chk.violation("fmt:views", "a task does not receive exactly one view of each output", dict(repl))
+            continue
+        r, r2 = region(w_t[0], out_t), region(w_i[0], out_i)
         if r != r2:
             chk.violation("fmt:views", "times and indices tiles of one task differ", dict(repl, tiles=[r, r2]))
         if r is not None:
             tl.append(r)
-        # inputs handed to a task must be read-only sources, not the outputs
-        for a in args[:2]:
-            if np.shares_memory(a, out_t) or np.shares_memory(a, out_i):
-                chk.violation("fmt:alias", "a task input aliases the output", repl)
     fmt_cases.append((n, m, p, bs, tl, repl))
     # premises on the real write regions
     cover = np.zeros((n, p), dtype=np.int64)
@@ -250,8 +259,11 @@ def check_dist(n1, n2, bs, dtype):
     p1 = g.Points(rng.integers(-8, 8, size=(n1, 3)).astype(dtype))
     p2 = g.Points(rng.integers(-8, 8, size=(n2, 3)).astype(dtype))
     h1, h2 = h(p1.coords), h(p2.coords)
-    ref = np.zeros((n1, n2), dtype=dtype)
-    arim.geometry._distance_pairwise(p1.x, p1.y, p1.z, p2.x, p2.y, p2.z, ref)
+    ref = g.distance_pairwise(p1, p2, block_size=6 * (n1 + n2) + 600, numthreads=1)
+    d = p1.coords[:, None, :].astype(np.float64) - p2.coords[None, :, :].astype(np.float64)
+    if not np.allclose(ref, np.sqrt((d * d).sum(axis=2)), rtol=1e-6 if dtype == np.float32 else 1e-14, atol=0):
+        chk.violation("dist:definition", "distance_pairwise (one tile) is not the Euclidean distance table",
+                      {"points1": p1.coords, "points2": p2.coords, "got": ref})
     repl = {"fn": "distance_pairwise", "num1": n1, "num2": n2, "block_size": bs, "points1": p1.coords,
             "points2": p2.coords}
 
@@ -261,7 +273,7 @@ def check_dist(n1, n2, bs, dtype):
     RecordingExecutor.order = None
     out = with_recording(concurrent.futures, "ThreadPoolExecutor", call)
     rec = RecordingExecutor.last
-    tl = [region(args[6], out) for fn, args in rec.tasks]
+    tl = [region(a, out) for fn, args in rec.tasks for a in args if isinstance(a, np.ndarray) and np.shares_memory(a, out)]
     tl = [t for t in tl if t is not None]
     dist_cases.append((n1, n2, bs, tl, repl))
     cover = np.zeros((n1, n2), dtype=np.int64)
@@ -366,48 +378,128 @@ burners = [subprocess.Popen([sys.executable, "-c", "while True: pass"]) for _ in
 try:
     maxthreads = numba.config.NUMBA_NUM_THREADS
     tcounts = [t for t in ((1, 2, 5, 16) if Q else range(1, 17)) if t <= maxthreads]
-    from arim.im import das
+    from arim.im import das, tfm
+    import arim.model as amodel
 
-    def das_inputs(numpoints, numel, numsamples, cplx):
+    def das_case(numpoints, numel, numsamples, cplx):
         tx, rx = arim.ut.fmc(numel)
         tt = rng.standard_normal((len(tx), numsamples))
         if cplx:
             tt = tt + 1j * rng.standard_normal((len(tx), numsamples))
-        lt = rng.random((numpoints, numel)) * 4.0
-        lr = rng.random((numpoints, numel)) * 4.0
-        atx = rng.standard_normal((numpoints, numel))
-        arx = rng.standard_normal((numpoints, numel))
-        return tt, tx.astype(np.int64), rx.astype(np.int64), lt, lr, atx, arx
+        dt, t0 = 0.5, 0.25
+        frame = arim.Frame(np.ascontiguousarray(tt), arim.Time(t0, dt, numsamples), tx, rx,
+                           arim.Probe.make_matrix_probe(numel, 1e-3, 1, np.nan, 1e6), arim.ExaminationObject(None))
+        # lookups mostly inside the window [0.25, 8.25); a few outside (fill value)
+        lt = np.ascontiguousarray(rng.random((numpoints, numel)) * 4.0 + 0.2)
+        lr = np.ascontiguousarray(rng.random((numpoints, numel)) * 4.0 + 0.2)
+        atx = np.ascontiguousarray(rng.standard_normal((numpoints, numel)))
+        arx = np.ascontiguousarray(rng.standard_normal((numpoints, numel)))
+        return frame, lt, lr, atx, arx
 
     kernels = []
-    for numpoints in (1, 7, 33) if Q else (1, 2, 7, 33, 257, 1000):
+    for numpoints in (1, 7, 33, 600) if Q else (1, 2, 7, 33, 257, 1000, 5000):
         for cplx in (False, True):
-            tt, tx, rx, lt, lr, atx, arx = das_inputs(numpoints, 4, 16, cplx)
-            dt, t0 = 0.5, 0.25
-            dtype = tt.dtype
-            kernels.append(("das_noamp_nearest", numpoints, lambda res, a=(tt, tx, rx, lt, lr): das._delay_and_sum_noamp(*a, 1 / dt, t0, 0.0, res), dtype, (tt, lt, lr)))
-            kernels.append(("das_noamp_linear", numpoints, lambda res, a=(tt, tx, rx, lt, lr): das._delay_and_sum_noamp_linear(*a, 1 / dt, t0, 0.0, res), dtype, (tt, lt, lr)))
-            kernels.append(("das_noamp_lanczos", numpoints, lambda res, a=(tt, tx, rx, lt, lr): das._delay_and_sum_noamp_lanczos(*a, 1 / dt, t0, 0.0, 3, res), dtype, (tt, lt, lr)))
-            kernels.append(("das_amp_nearest", numpoints, lambda res, a=(tt, tx, rx, lt, lr, atx, arx): das._delay_and_sum_amplitudes_nearest(*a, dt, t0, 0.0, res), dtype, (tt, lt, lr, atx, arx)))
-            kernels.append(("das_amp_linear", numpoints, lambda res, a=(tt, tx, rx, lt, lr, atx, arx): das._delay_and_sum_amplitudes_linear(*a, dt, t0, 0.0, res), dtype, (tt, lt, lr, atx, arx)))
-    for (name, numpoints, fn, dtype, inputs) in kernels:
+            frame, lt, lr, atx, arx = das_case(numpoints, 4, 16, cplx)
+            fl_noamp = tfm.FocalLaw(lt, lr)
+            fl_amp = tfm.FocalLaw(lt, lr, tfm.TxRxAmplitudes(atx, arx))
+            combos = [("noamp", fl_noamp, "nearest", "mean"), ("noamp", fl_noamp, "linear", "mean"),
+                      ("noamp", fl_noamp, ("lanczos", 3), "mean"), ("amp", fl_amp, "nearest", "mean"),
+                      ("amp", fl_amp, "linear", "mean")]
+            if cplx:
+                # robust aggregations: keep every lookup inside the window, because geomed/huber start
+                # from the origin and do not converge when a delayed sample equals the fill value 0
+                # exactly (a C02 matter, see DESIGN); thread-independence is what is tested here
+                lt_in = np.ascontiguousarray(rng.random((numpoints, 4)) * 3.5 + 0.3)
+                lr_in = np.ascontiguousarray(rng.random((numpoints, 4)) * 3.5 + 0.3)
+                fl_noamp = tfm.FocalLaw(lt_in, lr_in)
+                combos += [("noamp", fl_noamp, "nearest", "median"), ("noamp", fl_noamp, ("lanczos", 3), "median"),
+                           ("noamp", fl_noamp, ("lanczos", 3), ("huber", 1.5))]
+            for (amp, fl_, interp, agg) in combos:
+                name = f"das[{amp},{interp},{agg},{'c' if cplx else 'r'}]"
+                kernels.append((name, numpoints,
+                                lambda fr=frame, fl_=fl_, interp=interp, agg=agg: das.delay_and_sum(fr, fl_, interpolation=interp, aggregation=agg),
+                                (frame.timetraces, lt, lr, atx, arx)))
+    for (name, numpoints, fn, inputs) in kernels:
         hashes = [h(a) for a in inputs]
         ref = None
         for t in tcounts:
             numba.set_num_threads(t)
-            res = np.zeros(numpoints, dtype=dtype)
-            fn(res)
+            try:
+                res = np.asarray(fn())
+            except (Exception, SystemError) as e:      # e.g. geomed's "cannot find suitable alpha": an outcome too
+                res = np.frombuffer(("raised " + type(e).__name__).encode().ljust(32), dtype=np.uint8).copy()
+                chk.count(das_outcome="raises (geomed/huber did not converge on this data): case skipped")
+                ref = None
+                break
             if ref is None:
                 ref = res
-            elif not np.array_equal(ref.view(np.uint8), res.view(np.uint8)):
+            elif ref.shape != res.shape or not np.array_equal(np.ascontiguousarray(ref).view(np.uint8), np.ascontiguousarray(res).view(np.uint8)):
                 chk.violation(f"numba:{name}", f"{name} differs between numba thread counts", {
-                    "kernel": name, "numpoints": numpoints, "threads": t, "ref": ref, "got": res})
+                    "kernel": name, "numpoints": numpoints, "threads": t, "ref": ref, "got": res,
+                    "num_differing_pixels": int(np.sum(ref != res)) if ref.shape == res.shape else -1})
                 break
         if [h(a) for a in inputs] != hashes:
             chk.violation(f"numba-inputs:{name}", f"{name} modified its inputs", {"kernel": name})
         evaluations += 1
-        chk.count(numba_kernel=name)
-        nontrivial.add(("numba", name, numpoints, str(dtype)))
+        chk.count(numba_kernel=name.split(",")[1] + "/" + name.split(",")[2])
+        nontrivial.add(("numba", name, numpoints))
+
+    # model amplitudes (function and matrix variants) and sensitivities: same bits whatever
+    # the block size, the grid slicing and the number of JIT threads
+    class _View:
+        tx_path, rx_path = "txp", "rxp"
+
+        def scat_key(self):
+            return "LL"
+
+    for (numpoints, numel) in ((1, 2), (9, 3), (41, 4)) if Q else ((1, 2), (9, 3), (41, 4), (401, 5), (4001, 4)):
+        tx, rx = arim.ut.fmc(numel) if rng.random() < 0.5 else arim.ut.hmc(numel)
+        w = lambda: np.ascontiguousarray(rng.standard_normal((numel, numpoints)) + 1j * rng.standard_normal((numel, numpoints)))
+        ang = lambda: np.ascontiguousarray(rng.uniform(-np.pi, np.pi, (numel, numpoints)))
+        rw = amodel.RayWeights({"txp": w()}, {"rxp": w()}, {}, {}, {"txp": ang(), "rxp": ang()})
+        nmat = 12
+        smat = rng.standard_normal((nmat, nmat)) + 1j * rng.standard_normal((nmat, nmat))
+        sfunc = lambda a, b: np.cos(a) + 2j * np.sin(2 * b) + 0.5
+        weights = rng.uniform(0.5, 2.0, len(tx))
+        for kind, scattering in (("function", {"LL": sfunc}), ("matrix", {"LL": smat})):
+            hashes = [h(a) for a in (rw.tx_ray_weights_dict["txp"], rw.rx_ray_weights_dict["rxp"], smat, weights)]
+            ref = None
+            for t in (tcounts[:2] + tcounts[-1:]):
+                numba.set_num_threads(t)
+                ma = amodel.model_amplitudes_factory(tx, rx, _View(), rw, scattering, scat_angle=0.3)
+                full = np.asarray(ma[...])
+                parts = np.concatenate([np.asarray(ma[sl]) for sl in arim.helpers.chunk_array((numpoints, len(tx)), 3)], axis=0)
+                outs_ = {"full": full, "chunked3": parts}
+                for bs in sorted({1, 2, 3, max(1, numpoints - 1), numpoints, numpoints + 1, 4000}):
+                    outs_[f"sens_uniform_bs{bs}"] = amodel.sensitivity_uniform_tfm(ma, weights, block_size=bs)
+                    outs_[f"sens_assisted_bs{bs}"] = amodel.sensitivity_model_assisted_tfm(ma, weights, block_size=bs)
+                # canonical form: every sensitivity must equal the one-block value bit for bit
+                canon = {"amplitudes": full, "chunked": parts,
+                         "sens_uniform": outs_[f"sens_uniform_bs{numpoints + 1}"],
+                         "sens_assisted": outs_[f"sens_assisted_bs{numpoints + 1}"]}
+                if not np.array_equal(bits(full), bits(parts)):
+                    chk.violation(f"model_amplitudes:{kind}:slices", "model amplitudes differ between [...] and 3-point slices",
+                                  {"kind": kind, "numpoints": numpoints, "threads": t})
+                for k_, v_ in outs_.items():
+                    if k_.startswith("sens_"):
+                        base = canon["sens_uniform" if "uniform" in k_ else "sens_assisted"]
+                        if not np.array_equal(bits(v_), bits(base)):
+                            chk.violation(f"sensitivity:{kind}", f"sensitivity depends on the block size ({k_})",
+                                          {"kind": kind, "numpoints": numpoints, "numtimetraces": len(tx), "which": k_,
+                                           "threads": t, "max_abs_diff": float(np.max(np.abs(np.asarray(v_) - np.asarray(base))))})
+                            break
+                if ref is None:
+                    ref = canon
+                else:
+                    for k_ in canon:
+                        if not np.array_equal(bits(ref[k_]), bits(canon[k_])):
+                            chk.violation(f"model_amplitudes:{kind}:threads", f"{k_} differs between numba thread counts",
+                                          {"kind": kind, "numpoints": numpoints, "threads": t})
+            if [h(a) for a in (rw.tx_ray_weights_dict["txp"], rw.rx_ray_weights_dict["rxp"], smat, weights)] != hashes:
+                chk.violation(f"model_amplitudes:{kind}:inputs", "model amplitudes modified their inputs", {"kind": kind})
+            evaluations += 1
+            chk.count(model_amplitudes=kind)
+            nontrivial.add(("ma", kind, numpoints, numel))
     # _expand_rays (prange over first axis)
     for (d, n, m, p) in ((1, 3, 4, 5), (2, 9, 3, 7), (3, 1, 1, 1)) + (() if Q else ((2, 64, 17, 33),)):
         interior = rng.integers(0, 5, size=(d, n, m)).astype(np.int32)
